@@ -157,6 +157,14 @@ pub fn materialise_ops(plan: &Plan, a: &AsepriteFile) -> Vec<Op> {
             v.truncate(60);
             let n = 20 + r.usize_below(100);
             let mut h = observe::random_ops(&mut r, n, a.num_layers(), a.num_frames());
+            // "all finite sequences of public API calls" includes calls the documentation says
+            // panic: a third of the histories contain a few, at random positions
+            if r.chance(1, 3) {
+                for _ in 0..1 + r.usize_below(3) {
+                    let at = r.usize_below(h.len() + 1);
+                    h.insert(at, Op::OutOfRange(r.below(6) as u32));
+                }
+            }
             // repeats: duplicate a few
             for _ in 0..(n / 4) {
                 let k = r.usize_below(h.len());
